@@ -1,6 +1,6 @@
 """C15 helper: program description (modules, items) -> source files, as G (generic) or M (specialised)."""
-from checks.c15_lang import (Lang, Ctx, FuncDef, StructDef, subst, subst_body, is_concrete, tvars, mangle, L,
-                             ART_DAT, ADJ_PUB_DAT, ART_ACC_INDEF, ART_NOM, TypeErrorInModel, contains_nested_list, PRIM)
+from checks.c15_lang import (Lang, Ctx, FuncDef, subst, subst_body, is_concrete, mangle, list_depth, show_word,
+                             ART_DAT, ADJ_PUB_DAT, ART_ACC_INDEF, ART_NOM, TypeErrorInModel)
 
 
 class Module:
@@ -255,7 +255,6 @@ class Program:
         while i < len(lang.aliases_needed):     # naming an element type may need further aliases
             lang.tname(lang.aliases_needed[i])
             i += 1
-        from checks.c15_lang import list_depth
         for e in sorted(lang.aliases_needed, key=list_depth):
             al.append('Wir nennen eine %s auch eine Reihe_%s.' % (lang.tname(e), mangle(e)))
         final = []
@@ -341,7 +340,6 @@ class Program:
 
     def _render_zeige(self, lang, m, t, mode):
         body = [('write', ('lit', ('p', 'Text'), '"%s:"' % m.tag))] + self._leaves(('var', 'zx'), t) + [('write', ('lit', ('p', 'Buchstabe'), "'\\n'"))]
-        from checks.c15_lang import show_word
         f = FuncDef('zeige_' + mangle(t), [('zx', t, False)], None, show_word(t) + ' <zx>', body)
         return self._render_func(lang, m, f, mode)
 
